@@ -553,6 +553,19 @@ func (e *Env) call(n ECall) Term {
 		}
 		ca := e.c.aliveCur(e.cur)
 		return and(mk(SBool, "(not (select %s %s))", oa.S, x.S), mk(SBool, "(select %s %s)", ca.S, x.S), mk(SBool, "(not (= %s 0))", x.S))
+	case "isnew":
+		// allocated after the entry of the function under verification
+		need(1)
+		return mk(SBool, "(not (select %s %s))", e.c.aliveCur(e.old).S, arg(0).S)
+	case "unchanged":
+		// unchanged(T.f): every object that existed at function entry still has its entry value of T.f
+		need(1)
+		key := e.c.V.heapKeyByName(e.c, e, n.Args[0])
+		info := e.c.V.heapKeys[key]
+		cur := e.c.heapCur(e.cur, key, arrSort(info.Sort))
+		old := e.c.heapCur(e.old, key, arrSort(info.Sort))
+		q := e.freshBound("r")
+		return mk(SBool, "(forall ((%s Int)) (! (=> (select %s %s) (= (select %s %s) (select %s %s))) :pattern ((select %s %s))))", q, e.c.aliveCur(e.old).S, q, cur.S, q, old.S, q, cur.S, q)
 	case "alive":
 		need(1)
 		return mk(SBool, "(select %s %s)", e.c.aliveCur(e.cur).S, arg(0).S)
